@@ -65,6 +65,11 @@ CLAIMED["C07"] = ("5/C07",
    "Not covered: the bookkeeping invariant itself over histories; price/tick numeric agreement. Trusted: KV store, go/ssa.",
    "SSA origin-term / predicate-shape / order / who-may-call rules")
 
+CLAIMED["C18"] = ("5/C18",
+   "Static rules over x/mint decide: minted coin == distributed coin == truncated epoch provision; community-pool amount = minted - staking - pool-incentives - developer share with each term being the amount the distribute call reports it moved; shares are truncated proportions with ratio > 1 rejected; the provision is reduced exactly under epoch >= period + last reduction (strict comparison direction checked), together with SetMinter and the new last-reduction epoch and never after minting; nothing is minted before the start epoch or for another epoch identifier; developer rewards are burned from the mint account and paid from the vesting account inside a +/- supply-offset bracket.",
+   "Not covered: mint account empty / supply growth as numbers, long-run schedule. Trusted: bank keeper, epoch hook invoked once per epoch (C17).",
+   "SSA origin-term / guard-disjunct / order rules")
+
 NOT_YET = "check not built yet in this revision (static rule set under construction; see DESIGN.md section 5)"
 
 def main():
